@@ -590,6 +590,14 @@ impl Check for C03Check {
                 }
                 // padding longer than needed (an extra zero word, CRC recomputed)
                 cx.crc_valid(HeaderVariant::Padding(vec![0u8; padlen + 4]));
+                // ... and longer by multiples of 2^16 bytes: the slice length then exceeds what the
+                // 16-bit declared length can describe (a truncating comparison would be fooled)
+                if scn.payload.len <= 64 || scn.payload.len % 1000 == 7 {
+                    for k in [1usize, 2] {
+                        cx.crc_valid(HeaderVariant::Padding(vec![0u8; padlen + k * 65536]));
+                        cx.crc_valid(HeaderVariant::Padding(vec![0u8; padlen + k * 65536 - 4]));
+                    }
+                }
             }
         }
         fired += cx.stats.faults.values().sum::<u64>() - f0;
